@@ -124,3 +124,204 @@ def all_compositions(k):
         for rest in all_compositions(k - first):
             out.append([first] + rest)
     return out
+
+
+# ----------------------------------------------------------------------------- L2 generator
+# (deterministic core language: counts literal/formula, nested templates, friends, nicknames,
+#  references incl. dotted paths, variables, options, hidden fields/tables, just_once; v2 and v3)
+
+import json as _json
+
+L2_TABLES = ["A", "B", "C", "__H"]
+L2_NICKS = ["n1", "n2"]
+L2_FIELDS = ["f1", "f2", "f3", "__h"]
+L2_VARS = ["v1", "v2"]
+
+
+def expr_src(e):
+    k = e[0]
+    if k == "int":
+        return str(e[1])
+    if k == "name":
+        return e[1]
+    if k == "attr":
+        return f"{expr_src(e[1])}.{e[2]}"
+    return f"({expr_src(e[1])} {dict(add='+', sub='-', mul='*')[k]} {expr_src(e[2])})"
+
+
+def tmpl_src(parts):
+    return "".join(p[1] if p[0] == "text" else "${{" + expr_src(p[1]) + "}}" for p in parts)
+
+
+def fd_yaml(fd, ind):
+    k = fd[0]
+    pad = " " * ind
+    if k == "lit":
+        return " " + _json.dumps(fd[1]) + "\n"
+    if k == "tmpl":
+        return " " + _json.dumps(tmpl_src(fd[1])) + "\n"
+    if k == "ref":
+        return "\n" + pad + "reference: " + fd[1] + "\n"
+    if k == "nested":
+        return "\n" + stmt_yaml(fd[1], ind)
+    raise ValueError(fd)
+
+
+def stmt_yaml(st, ind):
+    pad = " " * ind
+    if "var" in st:
+        return f"{pad}- var: {st['var']}\n{pad}  value:" + fd_yaml(st["value"], ind + 4)
+    out = f"{pad}- object: {st['object']}\n"
+    if st.get("nickname"):
+        out += f"{pad}  nickname: {st['nickname']}\n"
+    if st.get("just_once"):
+        out += f"{pad}  just_once: true\n"
+    if st.get("count") is not None:
+        out += f"{pad}  count:" + fd_yaml(st["count"], ind + 4)
+    if st.get("fields"):
+        out += f"{pad}  fields:\n"
+        for n, fd in st["fields"]:
+            out += f"{pad}    {n}:" + fd_yaml(fd, ind + 6)
+    if st.get("friends"):
+        out += f"{pad}  friends:\n"
+        for f in st["friends"]:
+            out += stmt_yaml(f, ind + 4)
+    return out
+
+
+def recipe_yaml(rc):
+    out = f"- snowfakery_version: {rc['version']}\n"
+    for name, dflt in rc.get("options", []):
+        out += f"- option: {name}\n  default: {_json.dumps(dflt)}\n"
+    for st in rc["statements"]:
+        out += stmt_yaml(st, 0)
+    return out
+
+
+class L2Gen:
+    def __init__(self, rng, valid_bias=0.85):
+        self.r = rng
+        self.top_names = []
+        self.created_before = []  # top-level names whose template comes earlier
+        self.vars = []
+        self.valid_bias = valid_bias
+        self.features = set()
+
+    def expr(self, d, fields_so_far):
+        r = self.r
+        x = r.random()
+        safe = ["child_index", "id", "o1"] + fields_so_far + self.vars
+        if d <= 0 or x < 0.3:
+            return ["int", r.randint(0, 12)]
+        if x < 0.55:
+            return ["name", r.choice(safe)]
+        if x < 0.6:
+            self.features.add("maybe-undefined-name")
+            return ["name", r.choice(L2_FIELDS + L2_VARS + self.top_names)]
+        if x < 0.75 and self.top_names:
+            self.features.add("attr")
+            pool = self.created_before if (self.created_before and r.random() < self.valid_bias) else self.top_names
+            return ["attr", ["name", r.choice(pool)], r.choice(["id", "id", "f1", "f2"])]
+        return [r.choice(["add", "add", "sub", "mul"]), self.expr(d - 1, fields_so_far), self.expr(d - 1, fields_so_far)]
+
+    def count_expr(self):
+        r = self.r
+        x = r.random()
+        if x < 0.4:
+            return ["name", "o1"]
+        if x < 0.6 and self.vars:
+            return ["name", r.choice(self.vars)]
+        if x < 0.9:
+            return [r.choice(["add", "sub", "mul"]), ["name", "o1"], ["int", r.randint(0, 2)]]
+        return self.expr(1, [])
+
+    def ref_name(self):
+        r = self.r
+        if self.created_before and r.random() < self.valid_bias:
+            return r.choice(self.created_before)
+        return r.choice(self.top_names)
+
+    def fd(self, depth, fields_so_far, allow_nested=True):
+        r = self.r
+        x = r.random()
+        if x < 0.2:
+            pool = [r.randint(0, 20), "abc", "12", "007", "x y", "0", True] + ([None] if allow_nested else [])
+            return ["lit", r.choice(pool)]
+        if x < 0.45:
+            self.features.add("formula")
+            return ["tmpl", [["expr", self.expr(2, fields_so_far)]]]
+        if x < 0.55:
+            self.features.add("concat")
+            return ["tmpl", [["text", r.choice(["x", "q"])], ["expr", self.expr(1, fields_so_far)], ["text", r.choice(["", "z"])]]]
+        if x < 0.8 and self.top_names:
+            y = r.random()
+            self.features.add("reference")
+            if y < 0.88:
+                return ["ref", self.ref_name()]
+            if y < 0.93 and fields_so_far:
+                return ["ref", r.choice(fields_so_far)]
+            self.features.add("dotted-ref")
+            return ["ref", self.ref_name() + "." + r.choice(L2_FIELDS[:3])]
+        if allow_nested and depth > 0:
+            self.features.add("nested")
+            return ["nested", self.template(depth - 1, top=False)]
+        return ["lit", r.randint(0, 5)]
+
+    def template(self, depth, top, table=None, nick=None):
+        r = self.r
+        st = {"object": table or r.choice(L2_TABLES)}
+        if nick:
+            st["nickname"] = nick
+        if top and r.random() < 0.15:
+            st["just_once"] = True
+            self.features.add("just_once")
+        x = r.random()
+        if x < 0.25:
+            st["count"] = ["lit", r.randint(0, 3)]
+            self.features.add("count-literal")
+        elif x < 0.35:
+            st["count"] = ["tmpl", [["expr", self.count_expr()]]]
+            self.features.add("count-formula")
+        fs = []
+        sofar = []
+        for n in r.sample(L2_FIELDS, r.randint(0, 4)):
+            fs.append([n, self.fd(depth, list(sofar))])
+            sofar.append(n)
+            if n.startswith("__"):
+                self.features.add("hidden-field")
+        st["fields"] = fs
+        if st["object"].startswith("__"):
+            self.features.add("hidden-table")
+        if depth > 0 and r.random() < 0.3:
+            st["friends"] = [self.stmt(depth - 1, top=False) for _ in range(r.randint(1, 2))]
+            self.features.add("friends")
+        return st
+
+    def stmt(self, depth, top, table=None, nick=None):
+        r = self.r
+        if not table and r.random() < 0.15:
+            v = r.choice(L2_VARS)
+            st = {"var": v, "value": self.fd(0, [], allow_nested=False)}
+            self.vars.append(v)
+            self.features.add("var")
+            return st
+        return self.template(depth, top, table, nick)
+
+    def recipe(self):
+        r = self.r
+        n = r.randint(1, 5)
+        plan = []
+        for _ in range(n):
+            t = r.choice(L2_TABLES)
+            nk = r.choice(L2_NICKS) if r.random() < 0.4 else None
+            plan.append((t, nk))
+        self.top_names = sorted({t for t, _ in plan} | {nk for _, nk in plan if nk})
+        sts = []
+        for t, nk in plan:
+            if r.random() < 0.12:
+                sts.append(self.stmt(0, True))
+            sts.append(self.stmt(2, True, t, nk))
+            self.created_before.append(t)
+            if nk:
+                self.created_before.append(nk)
+        return {"version": r.choice([2, 3]), "options": [["o1", r.choice([1, 2, 3])]], "statements": sts}
